@@ -169,3 +169,106 @@ Theorem C03_layout_pre_e2e : forall (HO : hops) (data : bytes HO) (bs : N),
     = Ok (mkOb PreIO (root_hash HO data) (mkTree (blen HO data) bs) (spec_outboard HO false data bs)).
 Proof. exact e2e_layout_pre. Qed.
 Print Assumptions C03_layout_pre_e2e.
+
+(* ======== Final composition (proofs in Proofs/FinalStore.v): a store created by the crate is intact ========
+   spec_outboard HO post data bs is the concatenation, by slot, of the blob's true pairs of the persisted
+   nodes of the Shape; the i-th persisted node (pre / post order) has slot i (C12_pre_offsets /
+   C12_post_offsets); pairs are 64 bytes (cv_len32). *)
+From BaoV Require Import Proofs.FinalStore.
+
+(* PreOrderMemOutboard::create produces exactly the specified pre-order outboard (the C03 e2e theorems
+   above only gave its root, kind and tree) *)
+Theorem C03_pre_mem_create_e2e : forall (HO : hops), cv_len32 HO ->
+  forall (data : bytes HO) (bs : N), blen HO data <= 2 ^ 63 -> bs <= 10 ->
+  pre_mem_create HO data bs
+  = Ok (mkOb PreMem (root_hash HO data) (mkTree (blen HO data) bs) (spec_outboard HO false data bs)).
+Proof. exact c03_pre_mem_create. Qed.
+Print Assumptions C03_pre_mem_create_e2e.
+
+(* every creation entry point returns the store (kind, root hash, tree, specified outboard bytes) *)
+Theorem C03_created_entry_points : forall (HO : hops), cv_len32 HO ->
+  forall (data : bytes HO) (bs : N), blen HO data <= 2 ^ 63 -> bs <= 10 ->
+  (create_sized HO PreIO data (blen HO data) bs
+     = Ok (mkOb PreIO (root_hash HO data) (mkTree (blen HO data) bs) (spec_outboard HO false data bs)) /\
+   create_sized_fsm HO PreIO data (blen HO data) bs
+     = Ok (mkOb PreIO (root_hash HO data) (mkTree (blen HO data) bs) (spec_outboard HO false data bs))) /\
+  (create_sized HO PostIO data (blen HO data) bs
+     = Ok (mkOb PostIO (root_hash HO data) (mkTree (blen HO data) bs) (spec_outboard HO true data bs)) /\
+   create_sized_fsm HO PostIO data (blen HO data) bs
+     = Ok (mkOb PostIO (root_hash HO data) (mkTree (blen HO data) bs) (spec_outboard HO true data bs))) /\
+  pre_mem_create HO data bs
+     = Ok (mkOb PreMem (root_hash HO data) (mkTree (blen HO data) bs) (spec_outboard HO false data bs)) /\
+  post_mem_create HO data bs
+     = Ok (mkOb PostMem (root_hash HO data) (mkTree (blen HO data) bs) (spec_outboard HO true data bs)).
+Proof. exact c03_created_entry_points. Qed.
+Print Assumptions C03_created_entry_points.
+
+(* a store of any of the four kinds that holds the specified outboard of the blob (in particular every
+   store returned by an entry point above) is intact: every persisted node of the Shape loads the
+   blob's true pair, the other listed nodes have no slot; sync and fsm loaders alike *)
+Theorem C03_created_store_loads : forall (HO : hops), cv_len32 HO ->
+  forall (data : bytes HO) (bs : N), blen HO data <= 2 ^ 63 -> bs <= 10 ->
+  forall ob : outboard HO,
+  (ob_k ob = PreIO \/ ob_k ob = PostIO \/ ob_k ob = PreMem \/ ob_k ob = PostMem) ->
+  ob_tree ob = mkTree (blen HO data) bs ->
+  ob_data ob = spec_outboard HO (match ob_k ob with PostIO | PostMem => true | _ => false end) data bs ->
+  forall nd, In nd (sp_pre_nodes (blen HO data) bs) ->
+  (sp_persisted (blen HO data) bs nd = true ->
+     load_sync HO ob nd = Ok (Some (true_pair HO data nd)) /\ load_fsm HO ob nd = Ok (Some (true_pair HO data nd))) /\
+  (sp_persisted (blen HO data) bs nd = false ->
+     load_sync HO ob nd = Ok None /\ load_fsm HO ob nd = Ok None).
+Proof. exact c03_created_store_loads. Qed.
+Print Assumptions C03_created_store_loads.
+
+(* the two predicates used by the final theorems of Props/C02.v, C05.v, C06.v, C08.v:
+     created_by HO data bs ob    : ob is the result (Ok ob) of one of the six creation entry points
+     created_store HO data bs ob : kind, tree, root hash and bytes of ob are those of the blob's store *)
+Theorem C03_created_by_def : forall (HO : hops) (data : bytes HO) (bs : N) (ob : outboard HO),
+  created_by HO data bs ob <->
+  (create_sized HO PreIO data (blen HO data) bs = Ok ob \/
+   create_sized_fsm HO PreIO data (blen HO data) bs = Ok ob \/
+   create_sized HO PostIO data (blen HO data) bs = Ok ob \/
+   create_sized_fsm HO PostIO data (blen HO data) bs = Ok ob \/
+   pre_mem_create HO data bs = Ok ob \/
+   post_mem_create HO data bs = Ok ob).
+Proof. intros. reflexivity. Qed.
+Print Assumptions C03_created_by_def.
+
+Theorem C03_created_store_def : forall (HO : hops) (data : bytes HO) (bs : N) (ob : outboard HO),
+  created_store HO data bs ob <->
+  (ob_k ob = PreIO \/ ob_k ob = PostIO \/ ob_k ob = PreMem \/ ob_k ob = PostMem) /\
+  ob_tree ob = mkTree (blen HO data) bs /\
+  ob_root ob = root_hash HO data /\
+  ob_data ob = spec_outboard HO (match ob_k ob with PostIO | PostMem => true | _ => false end) data bs.
+Proof. exact created_store_def. Qed.
+Print Assumptions C03_created_store_def.
+
+Theorem C03_created_by_store : forall (HO : hops), cv_len32 HO ->
+  forall (data : bytes HO) (bs : N), blen HO data <= 2 ^ 63 -> bs <= 10 ->
+  forall ob : outboard HO, created_by HO data bs ob -> created_store HO data bs ob.
+Proof. exact c03_created_by_store. Qed.
+Print Assumptions C03_created_by_store.
+
+Theorem C03_created_store_intact : forall (HO : hops), cv_len32 HO ->
+  forall (data : bytes HO) (bs : N), blen HO data <= 2 ^ 63 -> bs <= 10 ->
+  forall ob : outboard HO, created_store HO data bs ob ->
+  forall nd, In nd (sp_pre_nodes (blen HO data) bs) ->
+  (sp_persisted (blen HO data) bs nd = true ->
+     load_sync HO ob nd = Ok (Some (true_pair HO data nd)) /\ load_fsm HO ob nd = Ok (Some (true_pair HO data nd))) /\
+  (sp_persisted (blen HO data) bs nd = false ->
+     load_sync HO ob nd = Ok None /\ load_fsm HO ob nd = Ok None).
+Proof. exact c03_created_store_loads'. Qed.
+Print Assumptions C03_created_store_intact.
+
+(* CreateOutboard::init_from (sync and fsm) on ANY pre-sized store of the four kinds - whatever bytes it holds,
+   e.g. a partially filled or corrupted one of a decode history - rewrites it into the blob's store *)
+Theorem C03_init_from_sized : forall (HO : hops), cv_len32 HO ->
+  forall (data : bytes HO) (bs : N), blen HO data <= 2 ^ 63 -> bs <= 10 ->
+  forall ob0 : outboard HO,
+  (ob_k ob0 = PreIO \/ ob_k ob0 = PostIO \/ ob_k ob0 = PreMem \/ ob_k ob0 = PostMem) ->
+  ob_tree ob0 = mkTree (blen HO data) bs ->
+  blen HO (ob_data ob0) = (sp_blocks (blen HO data) bs - 1) * 64 ->
+  exists ob, init_from HO ob0 data = Ok ob /\ init_from_fsm HO ob0 data = Ok ob /\
+             ob_k ob = ob_k ob0 /\ created_store HO data bs ob.
+Proof. exact c03_init_from_sized. Qed.
+Print Assumptions C03_init_from_sized.
